@@ -15,6 +15,10 @@ pub enum Exp {
     Relaxed,
     /// the script is outside what the model covers: not checked (counted)
     Unmodelled,
+    /// the value is not modelled (the text uses something whose acceptance C18 does not speak
+    /// about), but the text supplies the full date: whatever the outcome is, it must be an error
+    /// or an in-range value and must be the same under every clock
+    ClockFree,
 }
 
 #[derive(Clone, Copy, Debug, PartialEq, Eq)]
@@ -70,6 +74,8 @@ pub fn matches(exp: Exp, out: Outcome, ty: Ty) -> bool {
         (Exp::Relaxed, Outcome::Err) => true,
         (Exp::Relaxed, Outcome::Ok(o)) => in_range(ty, o),
         (Exp::Unmodelled, _) => true,
+        (Exp::ClockFree, Outcome::Err) => true,
+        (Exp::ClockFree, Outcome::Ok(o)) => in_range(ty, o),
     }
 }
 
@@ -153,7 +159,7 @@ pub fn is_complete_date(toks: &[Tok]) -> bool {
         }
         match t.sem {
             Sem::Year { k: 4, .. } => y4 = true,
-            Sem::Month { .. } | Sem::MonthName { .. } | Sem::MonthNumAsName { .. } => m = true,
+            Sem::Month { .. } | Sem::MonthName { .. } | Sem::MonthNumAsName { .. } | Sem::MonthNameGivenNumber { .. } => m = true,
             Sem::Day { .. } => d = true,
             Sem::Doy { .. } => doy = true,
             _ => {}
@@ -191,6 +197,7 @@ pub fn expect_parse(ty: Ty, toks: &[Tok], r: &Reading) -> Exp {
         }
     }
 
+    let mut clock_free_only = false;
     let mut year: Option<(u8, u32)> = None;
     let mut month: Option<u32> = None;
     let mut day: Option<u32> = None;
@@ -286,6 +293,24 @@ pub fn expect_parse(ty: Ty, toks: &[Tok], r: &Reading) -> Exp {
                     return Exp::Unmodelled;
                 }
                 month = Some(*n);
+            }
+            Sem::MonthNameGivenNumber { n } => {
+                if !ty.has_date() || month.is_some() || ex {
+                    return Exp::Err;
+                }
+                if digits_value(&t.txt, 2) != Some(*n) {
+                    return Exp::Unmodelled;
+                }
+                month = Some(*n);
+                clock_free_only = true;
+            }
+            Sem::Trailing => {
+                if i + 1 != n {
+                    return Exp::Unmodelled;
+                }
+                if !empty {
+                    clock_free_only = true;
+                }
             }
             Sem::Day { n } => {
                 if !ty.has_date() || day.is_some() || ex {
@@ -450,6 +475,10 @@ pub fn expect_parse(ty: Ty, toks: &[Tok], r: &Reading) -> Exp {
         }
     }
 
+    if clock_free_only {
+        let full = !ty.has_date() || (matches!(year, Some((4, _))) && ((month.is_some() && day.is_some()) || doy.is_some()));
+        return if full { Exp::ClockFree } else { Exp::Unmodelled };
+    }
     let minute = minute.unwrap_or(0);
     let second = second.unwrap_or(0);
     let usec = usec.unwrap_or(0);
